@@ -251,3 +251,12 @@ def ssp_coefficient(A, b, tol=1e-12):
         else:
             hi = mid
     return lo
+
+
+# ----------------------------------------------------------------------------- dense linear algebra
+def dense_solve(M, b):
+    """reference solution of M x = b by Householder QR (unconditionally backward stable).  LU with partial pivoting is NOT used as an oracle: its element
+    growth is exponential in the size for the band matrices of upwind-biased 4-point stencils (defect D19)."""
+    import scipy.linalg as sl
+    q, r = np.linalg.qr(np.asarray(M, dtype=float))
+    return sl.solve_triangular(r, q.T @ np.asarray(b, dtype=float))
